@@ -30,7 +30,11 @@ fn logln(log: &Log, s: &str) {
 
 struct Logger(Log);
 impl ConditionalEventHandler for Logger {
-    fn handle(&self, _evt: &Event, n: RepeatCount, positive: bool, ctx: &EventContext) -> Option<Cmd> {
+    fn handle(&self, evt: &Event, n: RepeatCount, positive: bool, ctx: &EventContext) -> Option<Cmd> {
+        if evt.get(0) == Some(&KeyEvent::ctrl('Z')) {
+            // the suspend key (C16's rawmode stream counts the suspend episodes of a read)
+            logln(&self.0, "Z");
+        }
         let mode = match ctx.input_mode() {
             InputMode::Command => "c",
             InputMode::Insert => "i",
